@@ -473,6 +473,8 @@ type c14Logger struct {
 	rc        bool // offers Reserve/Commit
 	reserved  []int
 	committed int
+	// detachAfter > 0: the logger takes itself off the System (sys.Logger = nil) after that many lines
+	detachAfter, lines int
 }
 
 func (l *c14Logger) Write(p []byte) (int, error) {
@@ -493,6 +495,9 @@ func (l *c14Logger) Write(p []byte) (int, error) {
 		ev.bad = kind + ": " + wt
 	}
 	*l.events = append(*l.events, ev)
+	if l.lines++; l.detachAfter > 0 && l.lines == l.detachAfter {
+		l.sys.Logger = nil // the field is the caller's: it may be cleared at any time, also from inside Write
+	}
 	return len(p), nil
 }
 
@@ -581,6 +586,9 @@ func c14RunCheck(w *c12World, rr c12Run) (sig, what string) {
 		w.sut.Logger = l
 	} else {
 		lg = &c14Logger{sys: w.sut, events: &events}
+		if rr.Logger == 3 {
+			lg.detachAfter = 2
+		}
 		w.sut.Logger = lg
 	}
 	gotRes, pnS := run(w.sut, &events)
@@ -637,6 +645,9 @@ func c14RunCheck(w *c12World, rr c12Run) (sig, what string) {
 			w.skipped = true
 			return "", ""
 		}
+	}
+	if lg.detachAfter > 0 && lg.lines >= lg.detachAfter {
+		return "", "" // the logger took itself off: the run went on untraced, the line count says nothing
 	}
 	if after := c12Snapshot(w.twin); final != after && final != before {
 		w.skipped = true
@@ -727,6 +738,10 @@ func runC14(r *report.Run) {
 		pdepth = 3
 	}
 	runs := c12Scenarios(pdepth, []int{1, 2}, budgets)
+	// a logger that takes itself off the System after two lines (budgets that allow more than two instructions)
+	for _, rr := range c12Scenarios(pdepth, []int{3}, []uint64{8, 50}) {
+		runs = append(runs, rr)
+	}
 	// long runs: budgets beyond the logger's reservation clamp ($100 cycles), on programs that loop
 	for _, prog := range [][]string{{"BRA -2"}, {"INX", "BRA -3"}, {"LDA #$1234", "PHA", "PLA", "BNE -3"}, {"DEX", "BNE -3", "STP"}} {
 		for _, start := range []uint32{0x7E2000, 0x008000} {
